@@ -250,8 +250,138 @@ def ssts_step_case(ivk, npts=2, i=1):
                 bounds={"trace points": npts, "step": i, "save interval": ivk, "consist": "one DummyLoco"}, max_paths=20000, timeout_ms=60000)
 
 
+# ---------------------------------------------------------------- simulation drivers: walk() of the locomotive / consist simulations, step() of the speed-limited train
+
+
+def _solve_stub(eng, st, args):
+    """the physics of one step replaced by its effect on the bookkeeping this property is about: none; it either succeeds or fails
+    (the real solve_step functions are executed by the harnesses of C01 / C09 / C11 / C12, which also show they leave counters alone)"""
+    from values import Enum, UNIT, Opaque
+    return [(st, Enum("Result", 0, [UNIT])), (st.fork(), Enum("Result", 1, [Opaque("anyhow::Error")]))]
+
+
+def _conc_tree(t, iv):
+    """concrete counters (1) and a concrete save interval everywhere in a locomotive template"""
+    t["state"]["i"] = 1
+    t["save_interval"] = iv
+    comp = t["loco_type"].payload[0]
+    for k in comp:
+        if k in ("fc", "gen", "res", "edrv"):
+            comp[k]["state"]["i"] = 1
+            comp[k]["save_interval"] = iv
+    return t
+
+
+def _expected_entries(iv, steps_done):
+    """walk(): one save before the first step, then one per executed step, each recorded when the counter is a multiple of the interval"""
+    if iv is None:
+        return 0
+    idx = [1] + list(range(1, steps_done + 1))
+    return sum(1 for i in idx if i % iv == 0)
+
+
+def sim_walk_case(sim, comp, iv, n=3):
+    from values import UNIT as _U  # noqa
+    kinds = {"C": "conv", "B": "bel", "H": "hyb"}
+    trace = {"time": [Sym(f"t{k}") for k in range(n)], "pwr": [Sym(f"p{k}") for k in range(n)], "engine_on": [True] * n}
+    if sim == "loco":
+        unit = _conc_tree(loco_tmpl(kinds[comp], "", 2, assert_limits=False), iv)
+        recv = {"loco_unit": unit, "power_trace": trace, "i": 1}
+        ty, units, top = "LocomotiveSimulation", [("loco_unit", kinds[comp])], "loco_unit"
+    else:
+        locos = [_conc_tree(loco_tmpl(kinds[ch], f"l{j}_", 2, assert_limits=False), iv) for j, ch in enumerate(comp)]
+        st = auto_state("ConsistState", "cs_")
+        st["i"] = 1
+        recv = {"loco_con": {"loco_vec": locos, "pdct": Variant("RESGreedy", {}), "assert_limits": False, "state": st, "save_interval": iv, "n_res_equipped": NONE_RAW}, "power_trace": trace, "i": 1}
+        ty, units, top = "ConsistSimulation", [(f"loco_con.loco_vec.{j}", kinds[ch]) for j, ch in enumerate(comp)], "loco_con"
+
+    def paths():
+        out = [top] if sim == "consist" else []
+        for (p, k) in units:
+            out.append(p)
+            out += [p + "." + x for x in loco_paths(k)]
+        return out
+
+    def aligned(c):
+        """all counters equal the driver's counter; all histories have the same length, the one walk() prescribes for the steps done"""
+        i_top = c.post["i"]
+        steps_done = i_top - 1
+        exp = _expected_entries(iv, steps_done)
+        return AND(*[XEQ(c.post[p + ".state.i"], i_top) for p in paths()], *[_eq_int(c, hlen(c, p + ".history"), exp) for p in paths()])
+
+    def entries_same_step(c):
+        """entry k of every history carries the same step index"""
+        ref = paths()[0]
+        nent = hlen(c, ref + ".history")
+        conds = []
+        for p in paths()[1:]:
+            for k in range(nent):
+                conds.append(XEQ(c.post[f"{p}.history.i.{k}"], c.post[f"{ref}.history.i.{k}"]))
+        return AND(*conds) if conds else True
+
+    def assume(S):
+        d = [(f"time stamps increase: t{k} < t{k+1}", S[f"t{k}"] < S[f"t{k+1}"]) for k in range(n - 1)]
+        # the stubbed physics does not look at these; they make the counterexamples replayable on the real build, whose solve_step does
+        d += [(f"zero power demand p{k} (replayability)", S[f"p{k}"] == 0) for k in range(n)]
+        us = [("", comp)] if sim == "loco" else [(f"l{j}_", ch) for j, ch in enumerate(comp)]
+        for (pp, ch) in us:
+            d += loco_domain(S, kinds[ch], pp, 2)
+            if ch == "H":
+                # a hybrid always books 50 kW of auxiliary load on its generator: ratings large enough for the real build to accept the step
+                d += [(f"{pp}hybrid ratings cover the fixed 50 kW auxiliary load (replayability)",
+                       z3.And(S[pp + "gen_pwr_out_max"] >= 1000000, S[pp + "fc_pwr_out_max"] >= 10000000, S[pp + "fc_pwr_out_max_init"] >= 5000000, S[pp + "fc_s_pwr_brake"] >= 0))]
+        return d
+
+    claims = [
+        Claim("a completed walk executes every step of the trace", lambda c: XEQ(c.post["i"], n), when="ok", role="walk_completes"),
+        Claim("counters equal and histories of equal, prescribed length after a completed walk", aligned, when="ok", role="walk_aligned"),
+        Claim("counters equal and histories of equal, prescribed length after a walk that ends with an error", aligned, when="err", role="walk_aligned_on_error"),
+        Claim("entry k of every history refers to the same step", entries_same_step, role="entries_same_step"),
+        Claim("no_panic", None, when="nopanic"),
+    ]
+    c = Case(f"{sim}_sim_walk_{comp}_iv{iv}_n{n}", "C19", ty, recv, [Call(f"{ty}::walk", [])], assume, claims,
+             bounds={"simulation": ty, "units": comp, "save interval": iv, "trace points": n, "physics": "solve_step stubbed: succeeds or fails, no effect on counters / histories"},
+             stubs={f"{ty}::solve_step": _solve_stub}, expect_ok=True, max_paths=20000, check_side=False)
+    c.no_tv = True  # the concrete runs would execute the real solve_step on arbitrary powers; the stubbed driver is what is compared
+    return c
+
+
+def slts_step_case(iv):
+    """SpeedLimitTrainSim::step with the physics stubbed: train, consist, locomotive and friction brake advance and record together"""
+    recv = slts_tmpl(dummy_consist_tmpl())
+    recv["save_interval"] = iv
+    recv["loco_con"]["save_interval"] = iv
+    recv["loco_con"]["loco_vec"][0]["save_interval"] = iv
+    recv["fric_brake"]["save_interval"] = iv
+    for t in (recv, recv["loco_con"], recv["loco_con"]["loco_vec"][0], recv["fric_brake"]):
+        t["state"]["i"] = I0
+    paths = ["", "loco_con.", "loco_con.loco_vec.0.", "fric_brake."]
+
+    def exp(c):
+        if iv is None:
+            return 0
+        return IF(XEQ(c.S["i0"] % iv, 0), 1, 0) if is_sym(c) else (1 if c.S["i0"] % iv == 0 else 0)
+
+    claims = [
+        Claim("train, consist, locomotive and friction-brake counters advanced together", lambda c: AND(*[XEQ(c.post[p + "state.i"], c.S["i0"] + 1) for p in paths]), when="ok", role="slts_counters_aligned"),
+        Claim("their histories grew together, exactly when i is a multiple of the interval", lambda c: AND(*[_eq_int(c, hlen(c, p + "history"), exp(c)) for p in paths]), when="ok", role="slts_histories_aligned"),
+        Claim("an error from solve leaves counters and histories untouched", lambda c: AND(*[XEQ(c.post[p + "state.i"], c.S["i0"]) for p in paths], *[_eq_int(c, hlen(c, p + "history"), 0) for p in paths]), when="err", role="slts_err_leaves_counters"),
+        Claim("no_panic", None, when="nopanic"),
+    ]
+    c = Case(f"speed_limit_sim_step_iv{iv}", "C19", "SpeedLimitTrainSim", recv, [Call("SpeedLimitTrainSim::step", [])],
+             lambda S: [("step counter i >= 1", S["i0"] >= 1), ("i below 2^32", S["i0"] < 2**32)], claims,
+             bounds={"save interval": iv, "consist": "one DummyLoco", "physics": "solve_step stubbed: succeeds or fails, no effect on counters / histories"},
+             stubs={"SpeedLimitTrainSim::solve_step": _solve_stub}, expect_ok=True, max_paths=20000, check_side=False)
+    c.no_tv = True
+    return c
+
+
 def m_cases(tier):
     cs = []
+    cs += [sim_walk_case("loco", "C", 1), sim_walk_case("loco", "B", 2), sim_walk_case("loco", "H", None), sim_walk_case("consist", "CB", 1), sim_walk_case("consist", "HB", 2)]
+    cs += [slts_step_case(None), slts_step_case(1), slts_step_case(3)]
+    if tier == "thorough":
+        cs += [sim_walk_case("loco", "C", 2, 4), sim_walk_case("loco", "B", 1, 4), sim_walk_case("loco", "H", 3, 5), sim_walk_case("consist", "CBC", 2, 4), sim_walk_case("consist", "CB", None), sim_walk_case("consist", "BH", 1, 4)]
     for ivk in ("Some", "None"):
         for kc in ("fc", "gen", "edrv", "res"):
             cs.append(comp_case(kc, ivk))
